@@ -116,6 +116,9 @@ class ECDH1PUAlgModel(JWEKeyAgreement):
         self.check_key_type(recipient_key)
         if sender_key is None:
             raise ValueError(f'Algorithm "{self.name}" requires a sender key')
+        # the token names the sender key ("skid") in a key set that may hold
+        # keys of any type
+        self.check_key_type(sender_key)
 
         ephemeral_key = recipient_key.import_key(headers["epk"])
         sender_shared_key = recipient_key.exchange_derive_key(sender_key)
